@@ -185,6 +185,17 @@ let dispatch (fn : Stdlib.String.t) (args : v list) : v =
       let kind = (match k with I 0 -> KCombined | I 1 -> KInsertions | I 2 -> KDeletions | _ -> bad "kind") in
       of_str (render_view kind (to_sdoc o) (to_sdoc n) (to_list (to_pair to_z to_str) ops) (to_str ic) (to_str dc)
                 (match body with L l -> List.map to_snode l | _ -> bad "body"))
+  | "doc_title", [d] ->
+      let to_attrs = to_list (to_pair to_str to_str) in
+      let rec to_snode (x : v) : snode = (match x with
+        | L [I 0; s] -> SText (to_str s)
+        | L [I 1; name; attrs; I vd; L children] -> SEl (to_str name, to_attrs attrs, (vd = 1), List.map to_snode children)
+        | _ -> bad "snode") in
+      (match d with
+        | L [dt; ha; hda; L hd; ba; L bd] ->
+            of_str (doc_title { d_doctype = to_opt to_str dt; d_html_attrs = to_attrs ha; d_head_attrs = to_attrs hda; d_head = List.map to_snode hd;
+              d_body_attrs = to_attrs ba; d_body = List.map to_snode bd })
+        | _ -> bad "sdoc")
   | "diffable_fragment", [body] ->
       let to_attrs = to_list (to_pair to_str to_str) in
       let rec to_snode (x : v) : snode = (match x with
